@@ -138,7 +138,46 @@ end OpenStep
 
 variable {E : Type} [DecidableEq E]
 
-theorem extrasOf_eq (env : Env) (s : State E) : extrasOf env s = extras (cfgOf env s) s.P s.now := rfl
+theorem extrasOf_eq (env : Env) (s : State E) : extrasOf env s = extras (cfgOf env s) (vis env s) s.now := rfl
+
+/-! ### the records the pass takes over (f7d6401) -/
+
+theorem pass_eq (env : Env) (s : State E) :
+    pass env s = cycle (cfgOf env s) (vis env s) s.now s.now env.exec := rfl
+
+/-- for an informational cause nothing is left out -/
+theorem vis_info (env : Env) (s : State E) (hh : isHandler s = false) : vis env s = s.P :=
+  taken_info (cfgOf env s) _ s.P hh
+
+theorem vis_uniform (env : Env) (s : State E) (hu : UniformOn env.owned s.P) : UniformOn env.owned (vis env s) :=
+  taken_uniform (cfg := cfgOf env s) hu
+
+/-- inside an open cycle (no record of another cause's purpose) nothing is left out -/
+theorem vis_of_noExtras (env : Env) (s : State E) (hne : NoExtras (cfgOf env s) s.P) : vis env s = s.P :=
+  taken_of_noExtras hne
+
+theorem vis_some (env : Env) (s : State E) {i : Id} {r : Rec} (h : vis env s i = some r) : s.P i = some r :=
+  taken_some h
+
+theorem vis_norec (env : Env) (s : State E) (hn : ∀ i ∈ env.owned, s.P i = none) : vis env s = s.P := by
+  funext j
+  cases hl : leftOut (cfgOf env s) (env.boundH (causeOf s)) s.P j
+  · exact taken_of_not_leftOut hl
+  · obtain ⟨_, ho, _, _, r, hP, _⟩ := leftOut_iff.1 hl
+    rw [hn j ho] at hP; cases hP
+
+/-- a handler whose record is left out is due: if nobody is due, nothing is left out -/
+theorem vis_eq_of_none_awake (env : Env) (s : State E)
+    (hna : ∀ i ∈ selOf env s, awakeP (vis env s) s.now i = false) : vis env s = s.P := by
+  funext j
+  cases hl : leftOut (cfgOf env s) (env.boundH (causeOf s)) s.P j
+  · exact taken_of_not_leftOut hl
+  · exfalso
+    obtain ⟨_, _, hs, _⟩ := leftOut_iff.1 hl
+    have := hna j hs
+    unfold awakeP at this
+    rw [show vis env s j = none from taken_of_leftOut hl] at this
+    cases this
 
 /-- the bound of a state that is not gone and needs no finalizer adjustment -/
 def hbound (env : Env) (s : State E) : Nat := if !s.pending then 0 else core env s
@@ -192,7 +231,7 @@ theorem noop_pass_id {cfg : Cfg} {P : Store} {now now1 : Tick} {exec : Id → Na
       simp [hj, h2, h3]
   · rfl
 
-/-! ### the purge of leftovers on a blind or FREE object (423b86f, 40d09eb) -/
+/-! ### the purge of leftovers on a FREE object (40d09eb) -/
 
 theorem purged_owned (env : Env) (s : State E) {i : Id} (hi : i ∈ env.owned) : purged env s i = none := by
   unfold purged purge
@@ -240,7 +279,7 @@ theorem leftovers_congr (env : Env) (s s' : State E) (hP : s'.P = s.P) : leftove
 theorem purged_uniform (env : Env) (s : State E) : UniformOn env.owned (purged env s) :=
   ⟨"", fun i hi r h => by rw [purged_owned env s hi] at h; cases h⟩
 
-/-- the shape of the turn without handlers on a blind or FREE object -/
+/-- the shape of the turn without handlers on a FREE object -/
 theorem purgeTurn_cases (env : Env) (s : State E) :
     (leftovers env s = true ∧
       purgeTurn env s = { s with P := purged env s, now := s.now + env.lat, pending := true, writes := s.writes + 1 }) ∨
@@ -286,7 +325,8 @@ theorem closed_next_not_handler (s' : State E) (hm : s'.marked = false) (hb : s'
 theorem changedOf_false_of_norec (env : Env) (s' : State E) (hh : isHandler s' = false)
     (hn : ∀ i ∈ env.owned, s'.P i = none) : changedOf env s' = false := by
   have hr : handlerReasons.contains (cfgOf env s').reason = false := hh
-  have hid : ∀ j, (pass env s').P' j = s'.P j := fun j => noop_pass_id hr hn j
+  have hid : ∀ j, (pass env s').P' j = s'.P j := by
+    intro j; rw [pass_eq, vis_info env s' hh]; exact noop_pass_id hr hn j
   have hc : (pass env s').closed = false := (cycle_not_handler_reason_invoked _ _ _ _ _ hr).2
   unfold changedOf
   simp [hid, hc]
@@ -333,7 +373,7 @@ theorem Cv_filter_le (cap : Tick) (l : List Id) (p : Id → Bool) (P : Store) (t
 theorem selOf_next (env : Env) (s : State E) (hc : (pass env s).closed = false) (a : Tick) (b : Bool) (c : Nat) :
     selOf env (nextState env s a b c) =
       (selOf env s).filter (fun i => !(env.initialH i &&
-        ((selOf env s).filter (fun j => env.initialH j && unfin s.P j && !unfin (pass env s).P' j)).contains i)) := by
+        ((selOf env s).filter (fun j => env.initialH j && unfin (vis env s) j && !unfin (pass env s).P' j)).contains i)) := by
   have hcz : causeOf (nextState env s a b c) = causeOf s :=
     causeOf_congr s _ (by simp [nextState, hc]) rfl rfl (by simp [nextState, hc]) rfl rfl
   unfold selOf
@@ -370,22 +410,27 @@ theorem handler_not_free (s : State E) (hh : isHandler s = true) : (causeOf s).r
 theorem core_handling (env : Env) (s : State E) (hpm : env.prematch = true) (hf : (causeOf s).reason ≠ .free) :
     core env s =
       if !isHandler s then (if changedOf env s then 2 else 1)
-      else 2 * Uv (selOf env s) s.P + Av (selOf env s) s.P s.now
-           + (if extrasOf env s then 1 else 0) + 1 + Cv env.cap (selOf env s) s.P s.now := by
+      else 2 * Uv (selOf env s) (vis env s) + Av (selOf env s) (vis env s) s.now
+           + (if extrasOf env s then 1 else 0) + 1 + Cv env.cap (selOf env s) (vis env s) s.now := by
   unfold core
   simp [hpm, hf]
 
-/-- the bound of a turn without handlers (blind or FREE) -/
-theorem core_purging (env : Env) (s : State E) (h : env.prematch = false ∨ (causeOf s).reason = .free) :
+/-- the bound of a FREE turn (no handlers, leftovers purged) -/
+theorem core_purging (env : Env) (s : State E) (hpm : env.prematch = true) (h : (causeOf s).reason = .free) :
     core env s = if leftovers env s then 2 else 1 := by
   unfold core
-  rcases h with h | h <;> simp [h]
+  simp [hpm, h]
+
+/-- the bound of a blind turn (nothing is done) -/
+theorem core_blind (env : Env) (s : State E) (hpm : env.prematch = false) : core env s = 1 := by
+  unfold core
+  simp [hpm]
 
 theorem hbound_of_open (env : Env) (s' : State E) (hp' : s'.pending = true)
     (hpm : env.prematch = true) (hh' : isHandler s' = true) :
-    hbound env s' = 2 * Uv (selOf env s') s'.P + Av (selOf env s') s'.P s'.now
-      + (if extras (cfgOf env s') s'.P s'.now then 1 else 0) + 1
-      + Cv env.cap (selOf env s') s'.P s'.now := by
+    hbound env s' = 2 * Uv (selOf env s') (vis env s') + Av (selOf env s') (vis env s') s'.now
+      + (if extras (cfgOf env s') (vis env s') s'.now then 1 else 0) + 1
+      + Cv env.cap (selOf env s') (vis env s') s'.now := by
   unfold hbound
   rw [core_handling env s' hpm (handler_not_free s' hh'), extrasOf_eq]
   simp only [hp', hh', Bool.not_true, Bool.false_eq_true, if_false]
@@ -449,16 +494,17 @@ theorem int_sleep_le (now d cap lat : Int) (hd : 0 ≤ d) (hcap : 0 < cap) (hlat
 /-- A turn that runs the handling pass (and does not release the object) strictly decreases the
     handling bound. `hcm`: a closing pass on a marked object is a release turn, not this one. -/
 theorem handle_decreases (env : Env) (wf : WF env) (s : State E) (hfin0 : PassFinal env s)
-    (hu : UniformOn env.owned s.P) (hp : s.pending = true) (hpm : env.prematch = true)
+    (hu0 : UniformOn env.owned s.P) (hp : s.pending = true) (hpm : env.prematch = true)
     (hfr : (causeOf s).reason ≠ .free)
     (hcm : (pass env s).closed = true → s.marked = false) :
     hbound env (handleTurn env s) < hbound env s := by
+  have hu : UniformOn env.owned (vis env s) := vis_uniform env s hu0
   by_cases hh : isHandler s = true
   rotate_left
   · -- an informational cause: leftover records are purged (no-op only), then nothing is pending
     have hh' : isHandler s = false := by simpa using hh
     have hr' : handlerReasons.contains (cfgOf env s).reason = false := hh'
-    have hinv := cycle_not_handler_reason_invoked (cfgOf env s) s.P s.now s.now env.exec hr'
+    have hinv := cycle_not_handler_reason_invoked (cfgOf env s) (vis env s) s.now s.now env.exec hr'
     have hcl : (pass env s).closed = false := hinv.2
     have hdl : (pass env s).delays = [] := by
       unfold pass; rw [cycle_not_handler_reason _ _ _ _ _ hr']
@@ -480,7 +526,10 @@ theorem handle_decreases (env : Env) (wf : WF env) (s : State E) (hfin0 : PassFi
         have hid : ∀ j, (pass env (nextState env s (s.now + env.lat) true (s.writes + 1))).P' j
             = (nextState env s (s.now + env.lat) true (s.writes + 1)).P j := by
           intro j
-          unfold pass
+          rw [pass_eq, vis_info env _ hh2]
+          show (cycle (cfgOf env (nextState env s (s.now + env.lat) true (s.writes + 1)))
+            (cycle (cfgOf env s) (vis env s) s.now s.now env.exec).P' _ _ env.exec).P' j
+              = (cycle (cfgOf env s) (vis env s) s.now s.now env.exec).P' j
           exact info_pass_twice' (cfg := cfgOf env s) (cfg' := cfgOf env (nextState env s (s.now + env.lat) true (s.writes + 1))) rfl hrs hr' j
         have hc2 : (pass env (nextState env s (s.now + env.lat) true (s.writes + 1))).closed = false := by
           unfold pass
@@ -497,17 +546,17 @@ theorem handle_decreases (env : Env) (wf : WF env) (s : State E) (hfin0 : PassFi
   -- a handler reason
   have hsub : ∀ i ∈ (cfgOf env s).selected, i ∈ (cfgOf env s).owned := fun i hi => selOf_sub env wf s i hi
   have hr : handlerReasons.contains (cfgOf env s).reason = true := hh
-  have hb : hbound env s = 2 * Uv (selOf env s) s.P + Av (selOf env s) s.P s.now
-      + (if extras (cfgOf env s) s.P s.now then 1 else 0) + 1 + Cv env.cap (selOf env s) s.P s.now :=
+  have hb : hbound env s = 2 * Uv (selOf env s) (vis env s) + Av (selOf env s) (vis env s) s.now
+      + (if extras (cfgOf env s) (vis env s) s.now then 1 else 0) + 1 + Cv env.cap (selOf env s) (vis env s) s.now :=
     hbound_of_open env s hp hpm hh
-  have hpos := two_U_add_A_pos (selOf env s) s.P s.now
+  have hpos := two_U_add_A_pos (selOf env s) (vis env s) s.now
   by_cases hc : (pass env s).closed = true
   · -- the closing pass: afterwards at most the echo of its PATCH is processed
     have hmk := hcm hc
     have hnone : ∀ i ∈ env.owned, (pass env s).P' i = none := by
       cases he : (cfgOf env s).selected.isEmpty
-      · exact closed_purges (cfgOf env s) s.P s.now s.now env.exec hr he hc
-      · exact (closed_purges_skip (cfgOf env s) s.P s.now s.now env.exec hr he).2
+      · exact closed_purges (cfgOf env s) (vis env s) s.now s.now env.exec hr he hc
+      · exact (closed_purges_skip (cfgOf env s) (vis env s) s.now s.now env.exec hr he).2
     have h1 : hbound env (handleTurn env s) ≤ 1 := by
       rcases handleTurn_cases env s with ⟨_, h⟩ | ⟨d, _, _, h⟩ | ⟨_, _, h⟩ <;> rw [h] <;>
         apply hbound_le_one_of_closed <;> first | exact hnone | simp [nextState, hc, hmk]
@@ -518,17 +567,17 @@ theorem handle_decreases (env : Env) (wf : WF env) (s : State E) (hfin0 : PassFi
     cases he : (cfgOf env s).selected.isEmpty
     · rfl
     · exfalso
-      have := cycle_no_handlers (cfgOf env s) s.P s.now s.now env.exec hr he
+      have := cycle_no_handlers (cfgOf env s) (vis env s) s.now s.now env.exec hr he
       unfold pass at hc'
       rw [this] at hc'
       cases hc'
-  have hopen : (cycle (cfgOf env s) s.P s.now s.now env.exec).closed = false := hc'
-  have hfin : PlanFinal (cfgOf env s) s.P s.now env.exec :=
+  have hopen : (cycle (cfgOf env s) (vis env s) s.now s.now env.exec).closed = false := hc'
+  have hfin : PlanFinal (cfgOf env s) (vis env s) s.now env.exec :=
     planFinal_of_invoked (now1 := s.now) hsub hu hr hne hfin0
-  have hULe : Uv (selOf env s) (pass env s).P' ≤ Uv (selOf env s) s.P :=
-    open_U_le (cfgOf env s) s.P s.now env.exec hsub hu hr hne hopen hfin
+  have hULe : Uv (selOf env s) (pass env s).P' ≤ Uv (selOf env s) (vis env s) :=
+    open_U_le (cfgOf env s) (vis env s) s.now env.exec hsub hu hr hne hopen hfin
   have hX : ∀ now', extras (cfgOf env s) (pass env s).P' now' = false := fun now' =>
-    noExtras_extras hsub (noExtras_after (cfgOf env s) s.P s.now s.now env.exec hsub hr hne)
+    noExtras_extras hsub (noExtras_after (cfgOf env s) (vis env s) s.now s.now env.exec hsub hr hne)
   have hbase : (if (pass env s).closed then some s.ess else s.base) = s.base := by simp [hc']
   have hfh : (s.fullyHandled || (pass env s).closed) = s.fullyHandled := by simp [hc']
   -- bound of the next state, whenever an event is pending there
@@ -539,7 +588,7 @@ theorem handle_decreases (env : Env) (wf : WF env) (s : State E) (hfin0 : PassFi
         A' = Av (selOf env (nextState env s now' true w)) (pass env s).P' now' ∧
         Uv (selOf env (nextState env s now' true w)) (pass env s).P' ≤ Uv (selOf env s) (pass env s).P' ∧
         Cv env.cap (selOf env (nextState env s now' true w)) (pass env s).P' now' ≤ Cv env.cap (selOf env s) (pass env s).P' now' ∧
-        Cv env.cap (selOf env (nextState env s now' true w)) (pass env s).P' now' ≤ Cv env.cap (selOf env s) s.P s.now := by
+        Cv env.cap (selOf env (nextState env s now' true w)) (pass env s).P' now' ≤ Cv env.cap (selOf env s) (vis env s) s.now := by
     intro now' w hle
     have hcz : causeOf (nextState env s now' true w) = causeOf s :=
       causeOf_congr s _ hbase rfl rfl hfh rfl rfl
@@ -547,7 +596,7 @@ theorem handle_decreases (env : Env) (wf : WF env) (s : State E) (hfin0 : PassFi
     have hsub' : ∀ i ∈ (cfgOf env (nextState env s now' true w)).selected,
         i ∈ (cfgOf env (nextState env s now' true w)).owned := fun i hi => selOf_sub env wf _ i hi
     have hne' : NoExtras (cfgOf env (nextState env s now' true w)) (pass env s).P' := by
-      have h0 := noExtras_after (cfgOf env s) s.P s.now s.now env.exec hsub hr hne
+      have h0 := noExtras_after (cfgOf env s) (vis env s) s.now s.now env.exec hsub hr hne
       intro i ho r hP
       have := h0 i ho r hP
       show r.purpose = none ∨ r.purpose = some (C14.reasonStr (causeOf (nextState env s now' true w)).reason)
@@ -556,7 +605,7 @@ theorem handle_decreases (env : Env) (wf : WF env) (s : State E) (hfin0 : PassFi
     have hX' : extras (cfgOf env (nextState env s now' true w)) (pass env s).P' now' = false :=
       noExtras_extras hsub' hne'
     refine ⟨Av (selOf env (nextState env s now' true w)) (pass env s).P' now', ?_, rfl, ?_, ?_, ?_⟩
-    · rw [hbound_of_open env _ rfl hpm hh']
+    · rw [hbound_of_open env _ rfl hpm hh', vis_of_noExtras env (nextState env s now' true w) hne']
       show 2 * Uv _ (pass env s).P' + Av _ (pass env s).P' now' +
         (if extras (cfgOf env (nextState env s now' true w)) (pass env s).P' now' = true then 1 else 0) + 1 + _ = _
       rw [hX']
@@ -565,13 +614,13 @@ theorem handle_decreases (env : Env) (wf : WF env) (s : State E) (hfin0 : PassFi
     · rw [selOf_next env s hc']; exact Cv_filter_le _ _ _ _ _
     · rw [selOf_next env s hc']
       exact Nat.le_trans (Cv_filter_le _ _ _ _ _)
-        (open_C_le (cfgOf env s) s.P s.now env.exec hsub hu hr hne hopen hfin env.cap now' hle)
-  by_cases haw : (selOf env s).any (awakeP s.P s.now) = true
+        (open_C_le (cfgOf env s) (vis env s) s.now env.exec hsub hu hr hne hopen hfin env.cap now' hle)
+  by_cases haw : (selOf env s).any (awakeP (vis env s) s.now) = true
   · -- somebody is due: at least one handler reaches its final outcome
     rw [List.any_eq_true] at haw
     obtain ⟨i, hi, ha⟩ := haw
-    have hULt : Uv (selOf env s) (pass env s).P' < Uv (selOf env s) s.P :=
-      open_U_lt (cfgOf env s) s.P s.now env.exec hsub hu hr hne hopen hfin i hi ha
+    have hULt : Uv (selOf env s) (pass env s).P' < Uv (selOf env s) (vis env s) :=
+      open_U_lt (cfgOf env s) (vis env s) s.now env.exec hsub hu hr hne hopen hfin i hi ha
     rcases handleTurn_cases env s with ⟨_, h⟩ | ⟨d, _, hm, h⟩ | ⟨_, _, h⟩
     · rw [h]
       have hle : s.now ≤ s.now + env.lat := int_le_add s.now env.lat wf.lat
@@ -589,13 +638,13 @@ theorem handle_decreases (env : Env) (wf : WF env) (s : State E) (hfin0 : PassFi
       have hA' : A' ≤ 1 := by rw [kA]; exact Av_le_one _ _ _
       rw [k1, hb]; omega
     · rw [h, hb, hbound_not_pending _ _ rfl]; omega
-  have hna : ∀ i ∈ (cfgOf env s).selected, awakeP s.P s.now i = false := by
+  have hna : ∀ i ∈ (cfgOf env s).selected, awakeP (vis env s) s.now i = false := by
     intro i hi
-    cases hv : awakeP s.P s.now i
+    cases hv : awakeP (vis env s) s.now i
     · rfl
     · exfalso; apply haw; rw [List.any_eq_true]; exact ⟨i, hi, hv⟩
-  have hA : Av (selOf env s) s.P s.now = 1 := by simp [Av, haw]
-  by_cases hex : extras (cfgOf env s) s.P s.now = true
+  have hA : Av (selOf env s) (vis env s) s.now = 1 := by simp [Av, haw]
+  by_cases hex : extras (cfgOf env s) (vis env s) s.now = true
   · -- nobody is due, superseded records are re-purposed
     rcases handleTurn_cases env s with ⟨_, h⟩ | ⟨d, _, hm, h⟩ | ⟨_, _, h⟩
     · rw [h]
@@ -615,13 +664,15 @@ theorem handle_decreases (env : Env) (wf : WF env) (s : State E) (hfin0 : PassFi
       rw [k1, hb, hA]; simp only [hex, if_true]; omega
     · rw [h, hb, hbound_not_pending _ _ rfl]; omega
   -- nobody is due, nothing to re-purpose: the pass leaves the object alone; sleep, then touch
-  have hex' : extras (cfgOf env s) s.P s.now = false := by simpa using hex
-  have hid : ∀ j, (pass env s).P' j = s.P j :=
+  have hex' : extras (cfgOf env s) (vis env s) s.now = false := by simpa using hex
+  have hid : ∀ j, (pass env s).P' j = (vis env s) j :=
     fun j => sleep_pass_id hsub hr hne hopen hex' hna j
+  have hVP : vis env s = s.P := vis_eq_of_none_awake env s hna
   have hnc : changedOf env s = false := by
     unfold changedOf
     rw [hbase]
-    simp [hid]
+    have hid' : ∀ j, (pass env s).P' j = s.P j := fun j => by rw [hid j, hVP]
+    simp [hid']
   rcases handleTurn_cases env s with ⟨h, _⟩ | ⟨d, _, hm, h⟩ | ⟨_, _, h⟩
   · rw [hnc] at h; cases h
   · have hmem := minDelay_mem _ _ hm
@@ -635,7 +686,7 @@ theorem handle_decreases (env : Env) (wf : WF env) (s : State E) (hfin0 : PassFi
       have hle : s.now ≤ s.now + env.cap + (latS env) := int_le_add2 s.now env.cap (latS env) wf.cap (latS_nonneg env wf)
       obtain ⟨A', k1, kA, kU, kCf, kC⟩ := key _ _ hle
       have hstrict : Cv env.cap (selOf env s) (pass env s).P' (s.now + env.cap + (latS env))
-          < Cv env.cap (selOf env s) s.P s.now := by
+          < Cv env.cap (selOf env s) (vis env s) s.now := by
         unfold Cv
         apply sum_map_lt _ _ _ _ i hi
         · unfold slack
@@ -643,7 +694,7 @@ theorem handle_decreases (env : Env) (wf : WF env) (s : State E) (hfin0 : PassFi
           simp only [hrf, Bool.false_eq_true, if_false, hrd]
           exact int_slack_lt dd s.now env.cap (latS env) wf.cap (latS_nonneg env wf) (int_cap_lt env.cap d dd s.now hcap hdeq)
         · intro k hk
-          exact open_slack (cfgOf env s) s.P s.now s.now env.exec hsub hu hr hne hopen hfin env.cap _ hle k hk
+          exact open_slack (cfgOf env s) (vis env s) s.now s.now env.exec hsub hu hr hne hopen hfin env.cap _ hle k hk
       have hA' : A' ≤ 1 := by rw [kA]; exact Av_le_one _ _ _
       rw [k1, hb, hA]
       simp only [hex', Bool.false_eq_true, if_false]
